@@ -40,7 +40,15 @@ def cases(draw):
             ops.append({"op": "line", "text": f"{nid};255;3;0;{draw(st.sampled_from([11, 12]))};{text}"})
         else:
             ops.append({"op": "line", "text": f"{nid};{draw(st.sampled_from(gen.CHILD_POOL))};1;0;{draw(st.sampled_from([0, 24, 25, 28]))};{text}"})
-    return {"version": hist["version"], "ops": ops}
+    # what happens AFTER the load: late-bound to the nodes / children the loaded gateway knows
+    after = []
+    for _ in range(draw(st.integers(0, 9))):
+        after.append({
+            "kind": draw(st.sampled_from(["wake", "wake", "wake", "set", "set", "req", "value", "reboot"])),
+            "ni": draw(st.integers(0, 5)), "ci": draw(st.integers(0, 3)),
+            "vt": draw(st.sampled_from([2, 24, 0])), "value": draw(st.sampled_from(["1", "0", "x", "21.5"])),
+        })
+    return {"version": hist["version"], "ops": ops, "after": after}
 
 
 def apply_ops(driver, ops):
@@ -59,9 +67,45 @@ def apply_ops(driver, ops):
     return None
 
 
+def after_load(driver, version, ops):
+    """Run the post-load continuation on a loaded gateway; returns what it emitted per op. The ops are bound
+    to the nodes that have children (in id order), so that wake-ups really start smart sleep."""
+    from vf.ref import tables as T
+
+    gw = driver.gw
+    nodes = sorted(n for n, s in gw.sensors.items() if s.children and 0 < n < 255)
+    out = []
+    wake = T.wake_sub(version)
+    for op in ops:
+        if not nodes:
+            break
+        nid = nodes[op["ni"] % len(nodes)]
+        kids = sorted(gw.sensors[nid].children)
+        cid = kids[op["ci"] % len(kids)]
+        vt, value = op["vt"], op["value"]
+        if vt in (2, 0) and value == "x":
+            value = "1"
+        kind = op["kind"]
+        if kind == "wake":
+            if wake is None:
+                continue
+            step = driver.line(f"{nid};255;3;0;{wake};5")
+        elif kind == "set":
+            step = driver.set_value(nid, cid, vt, value)
+        elif kind == "req":
+            step = driver.line(f"{nid};{cid};2;0;{vt};")
+        elif kind == "value":
+            step = driver.line(f"{nid};{cid};1;0;{vt};{value}")
+        else:
+            step = driver.update_fw([nid], 1, 1, image=b"\x01" * 20)
+        out.append([kind, nid, cid, list(step.sent), repr(step.exc), type(step.call_exc).__name__])
+    return out
+
+
 def check_case(case, stats=None):
     version = case["version"]
     results = {}
+    behaviour = {}
     with persist.Scratch() as tmp, persist.TimerPatch() as fake:
         for ext in ("json", "pickle"):
             path = os.path.join(tmp, f"net.{ext}")
@@ -100,7 +144,25 @@ def check_case(case, stats=None):
             if step.exc is not None or len(loaded.driver.sent_log()) != mark:
                 raise Violation(f"first_pump_emits.{ext}", case, f"{ext}: first pump after load emitted {loaded.driver.sent_log()[mark:]} / raised {step.exc!r}")
             results[ext] = after
-            loaded.stop()
+            # life goes on after the load: both formats must have restored the same *behaviour*, and what the
+            # loaded gateway accumulates must again not survive the next load
+            emitted = after_load(loaded.driver, version, case.get("after", []))
+            behaviour[ext] = {"emitted": emitted, "state": drive.typed(loaded.projection()), "transient": drive.jsonable(drive.transient(loaded.gw)["nodes"])}
+            try:
+                loaded.stop()
+                third = persist.Lifetime(fake, version, path)
+            except Exception as exc:  # pylint: disable=broad-except
+                raise Violation(f"second_cycle_raises.{ext}.{type(exc).__name__}", case, f"{ext}: stop()/load of a gateway that itself started from a file raised {type(exc).__name__}: {exc}") from exc
+            for nid, s in third.gw.sensors.items():
+                if s.new_state or s.queue or s.reboot or s.is_smart_sleep_node:
+                    raise Violation(f"transient_resurrected.second_load.{ext}", case, f"{ext}: node {nid} loaded (second cycle) with new_state={s.new_state} queue={list(s.queue)} reboot={s.reboot}")
+            if drive.typed(third.projection()) != behaviour[ext]["state"]:
+                raise Violation(f"roundtrip.second_cycle.{ext}", case, f"{ext}: second save/load cycle changed the state: {first_diff(behaviour[ext]['state'], drive.typed(third.projection()))}")
+            third.stop()
+        if behaviour["json"] != behaviour["pickle"]:
+            for key in ("emitted", "state", "transient"):
+                if behaviour["json"][key] != behaviour["pickle"][key]:
+                    raise Violation(f"formats_disagree.after_load.{key}", case, f"the same traffic after a load from json vs pickle: {key} differ: {str(behaviour['json'][key])[:400]} vs {str(behaviour['pickle'][key])[:400]}")
         if results["json"] != results["pickle"]:
             raise Violation("formats_disagree", case, f"json and pickle restore different states: {first_diff(results['json'], results['pickle'])}")
     if stats is not None:
